@@ -695,7 +695,15 @@ func (r *limRunner) genStep(g *Rng) string {
 			// existing mailbox; near the mailbox limit this is what State.Rename's limit check is for
 			var cand []limMB
 			for _, m := range user {
-				if !r.connIDs[m.name] && m.name != "INBOX" {
+				// only hierarchies that hold no messages: a mailbox that a forced APPEND race (known finding
+				// check-outside-tx) already took above the message maximum must not be blamed on the RENAME that moves it
+				empty := m.count == 0
+				for _, o := range user {
+					if strings.HasPrefix(o.name, m.name+"/") && o.count != 0 {
+						empty = false
+					}
+				}
+				if !r.connIDs[m.name] && m.name != "INBOX" && empty {
 					cand = append(cand, m)
 				}
 			}
